@@ -171,5 +171,16 @@ def _table_agreement(run: Run, m) -> None:
     for name in ("Select", "SelectMany", "Where"):
         need[name] = "ObjectStream operator"
     run.floor("C17.R5", len(need), 8, "operator names required in the table")
+    # .. and every entry of the table is an operator the package knows under that name (two adjacent string literals merge
+    # into one bogus entry when a comma is lost: "ResultAwkwardArray" "ResultPandasDF")
+    vocab = set(need)
+    for f in m.funcs.values():
+        for c in calls_in(f):
+            if isinstance(c.func, ast.Name) and c.func.id == "function_call" and c.args and isinstance(c.args[0], ast.Constant) and isinstance(c.args[0].value, str):
+                vocab.add(c.args[0].value)
+    os_cls = m.find_class("ObjectStream", in_module="func_adl.object_stream")
+    vocab |= {n_ for n_ in os_cls.methods if not n_.startswith("_")}
+    for entry in sorted(table):
+        run.check(entry in vocab, "C17.R5", outer, lst, f"table entry '{entry}' is the name of an operator of the package", f"'{entry}' in default_list_of_functions is not the name of any operator the package emits, dispatches on or defines: the operators it was meant to list (e.g. two names merged by a lost comma) stay in method form", key=f"table entry {entry!r} is no operator")
     for name, why in sorted(need.items()):
         run.check(name in table, "C17.R5", outer, lst, f"'{name}' ({why}) is in default_list_of_functions", f"operator '{name}' ({why}) is dispatched on in function form but missing from default_list_of_functions: seq.{name}(..) stays in method form")
